@@ -151,9 +151,20 @@ def check(run, ctx):
     fw = next((n for n in ast.walk(ldp.node) if is_call_named(n, "lint_files_parallel")), None)
     (run.ok(P3, "lint_directory_parallel", "hands the collected list to lint_files_parallel") if fw is not None and fw.args and isinstance(fw.args[0], ast.Name) else run.finding(P3, "lint_directory_parallel", "forward", "the collected files are not handed to lint_files_parallel unchanged", ldp.loc))
 
-    P4 = run.rule("P4", "the worker does not catch the ValueError that signals invalid configuration", floor=1, decides="the exit code is the same with and without --parallel")
-    if lf and is_caught(w.node, lf[0], "ValueError"):
-        run.finding(P4, "_lint_file_worker", "swallows-ValueError", "`except Exception` around lint_file logs and drops the ValueError that the sequential path lets end the run with exit 2", w.loc)
-    else:
-        run.ok(P4, "_lint_file_worker", "ValueError propagates to the parent")
+    P4 = run.rule("P4", "neither the worker nor the parent's future collector stops a ValueError (or a subclass) that the sequential path lets through", floor=2, decides="the exit code is the same with and without --parallel")
+    # the sequential path (_safe_check_rule) lets every ValueError - subclasses such as UnicodeError included - end the run;
+    # the worker and the parent's future collector must do the same
+    VE_FAMILY = ("ValueError", "UnicodeError", "UnicodeDecodeError", "UnicodeEncodeError")
+    sites = [("_lint_file_worker", w, lf[0] if lf else None)]
+    res_calls = [n for n in ast.walk(ef.node) if is_call_named(n, "result")]
+    sites.append((ef.name, ef, res_calls[0] if res_calls else None))
+    for nm_, fn_, target in sites:
+        if target is None:
+            run.undecided(P4, nm_, "the call whose ValueError must propagate was not found")
+            continue
+        swallowed = [e_ for e_ in VE_FAMILY if is_caught(fn_.node, target, e_)]
+        if swallowed:
+            run.finding(P4, nm_, f"swallows:{swallowed[0]}", f"{nm_} stops {swallowed[0]} (a ValueError) raised while linting / collecting a file: the sequential path lets it end the run with exit 2, the parallel path logs it and carries on with exit 0/1", fn_.loc)
+        else:
+            run.ok(P4, nm_, "ValueError and its subclasses propagate to the caller")
     return __doc__
